@@ -93,13 +93,10 @@ func verifH_C13_body_readable() {
 	verifReach("end")
 }
 
-//verif:harness id=C13 tier=quick,thorough witness=end bounds="parameter defaults: query / header / cookie parameter with schema integer default 7 / 7.0 / 1000000.0 (as decoded from JSON), string default 'd', array of integers default [1,2] (style form/spaceDelimited/pipeDelimited, explode on/off), or object default {a:1,b:x} (query deepObject / form exploded or not, header simple exploded or not); parameter absent, present with a value, or present but empty; declared on the operation, on the path item, or on the path item behind a parameter the operation overrides; SkipSettingDefaults on/off; after ValidateRequest the forwarded request carries the default exactly when it was absent and defaults are on; validating the forwarded request again succeeds and changes nothing; decoding the parameter again yields the default"
+//verif:harness id=C13 tier=quick,thorough witness=end bounds="parameter defaults: query / header / cookie parameter with schema integer default 7 / 7.0 / 1000000.0 (as decoded from JSON), string default 'd', array of integers default [1,2] (style form/spaceDelimited/pipeDelimited, explode on/off), or object default {a:1,b:x} (query deepObject / form exploded or not, header simple exploded or not, cookie form not exploded); parameter absent, present with a value, or present but empty; declared on the operation, on the path item, or on the path item behind a parameter the operation overrides; SkipSettingDefaults on/off; after ValidateRequest the forwarded request carries the default exactly when it was absent and defaults are on; validating the forwarded request again succeeds and changes nothing; decoding the parameter again yields the default"
 func verifH_C13_param_defaults() {
 	in := []string{"query", "header", "cookie"}[verifChoose("in", 3)]
 	shape := verifChoose("shape", 4)
-	if shape == 3 && in == "cookie" {
-		return // objects in cookies: outside the bound
-	}
 	var schema *openapi3.Schema
 	var wantDecoded any
 	switch shape {
@@ -143,9 +140,9 @@ func verifH_C13_param_defaults() {
 		t := true
 		param.Explode = &t
 	}
-	if in == "cookie" && shape == 2 {
+	if in == "cookie" && shape >= 2 {
 		f := false
-		param.Explode = &f // arrays in cookies are only defined non-exploded
+		param.Explode = &f // arrays and objects in cookies are only defined non-exploded
 	}
 	if in == "query" && shape == 2 {
 		param.Style = []string{"", "form", "spaceDelimited", "pipeDelimited"}[verifChoose("style", 4)]
@@ -195,6 +192,8 @@ func verifH_C13_param_defaults() {
 				req.URL.RawQuery = "a=5"
 			case in == "query":
 				req.URL.RawQuery = "P=a,5"
+			case in == "cookie":
+				req.Header["Cookie"] = []string{"P=a,5"}
 			case explode:
 				req.Header["P"] = []string{"a=5"}
 			default:
